@@ -820,7 +820,7 @@ Proof. intros [A _]. specialize (A eq_refl). discriminate. Qed.
 
 (* the oracle accepts the model's own observation on a conflicting example *)
 Example oracle_accepts_model :
-  let i := {| i_sb := [0;1]; i_sl := [0;1]; i_sr := [0;1;9];
+  let i := {| i_cls := []; i_sb := [0;1]; i_sl := [0;1]; i_sr := [0;1;9];
               i_b := [(1, [Some 1; Some 1]); (2, [Some 2; Some 2]); (3, [Some 3; None])];
               i_l := [(1, [Some 7; Some 1]); (2, [Some 2; Some 5]); (4, [Some 4; Some 4])];
               i_r := [(1, [Some 1; Some 8; None]); (2, [Some 2; Some 6; Some 1]); (3, [Some 0; None; None]); (4, [Some 4; Some 5; None])] |} in
@@ -1127,6 +1127,92 @@ Proof.
   - split; intro H; [reflexivity|]. split; [intros [v Hv]; discriminate|discriminate].
 Qed.
 
+(* ---------- the representation-aware model at cls = identity is the value-only model ---------- *)
+Lemma cell_veqb_id a b : cell_veqb (fun x => x) a b = cell_eqb a b.
+Proof. destruct a, b; reflexivity. Qed.
+
+Lemma ocell_veqb_id a b : ocell_veqb (fun x => x) a b = ocell_eqb a b.
+Proof. destruct a as [x|], b as [y|]; cbn [ocell_veqb ocell_eqb]; try reflexivity; apply cell_veqb_id. Qed.
+
+Lemma tie_same v : tie v v = v.
+Proof. unfold tie. destruct (bytes_gt v v); reflexivity. Qed.
+
+Lemma merged_col_g_id sb sl sr ob l r c :
+  merged_col_g (fun x => x) sb sl sr ob l r c = merged_col sb sl sr ob l r c.
+Proof.
+  unfold merged_col_g, merged_col.
+  destruct (ocol sb ob c) as [bv|], (col sl l c) as [lv|], (col sr r c) as [rv|]; rewrite ?cell_veqb_id; try reflexivity.
+  - destruct (cell_eqb_spec lv rv); [subst; rewrite tie_same|]; reflexivity.
+  - destruct (cell_eqb_spec lv rv); [subst; rewrite tie_same|]; reflexivity.
+Qed.
+
+Lemma base_col_g_id fixed sb sl sr b ol or c :
+  base_col_g (fun x => x) fixed sb sl sr b ol or c = base_col fixed sb sl sr b ol or c.
+Proof.
+  unfold base_col_g, base_col, cmp_base_g, cmp_base.
+  destruct ol as [l|], or as [r|]; reflexivity.
+Qed.
+
+Lemma base_pass_ext f g cs : (forall c, f c = g c) -> base_pass f cs = base_pass g cs.
+Proof. intro H. induction cs as [|c cs IH]; cbn [base_pass]; [reflexivity|]. rewrite H, IH. reflexivity. Qed.
+
+Lemma col_pass_ext f g cs : (forall c, f c = g c) -> col_pass f cs = col_pass g cs.
+Proof. intro H. induction cs as [|c cs IH]; cbn [col_pass]; [reflexivity|]. rewrite H, IH. reflexivity. Qed.
+
+Lemma try_merge_g_id fixed sb sl sr sm ob ol or :
+  try_merge_g (fun x => x) fixed sb sl sr sm ob ol or = try_merge fixed sb sl sr sm ob ol or.
+Proof.
+  unfold try_merge_g, try_merge.
+  assert (B : forall b, base_pass (base_col_g (fun x => x) fixed sb sl sr b ol or) sb = base_pass (base_col fixed sb sl sr b ol or) sb)
+    by (intro b; apply base_pass_ext; intro c; apply base_col_g_id).
+  destruct ob as [b|]; rewrite ?B;
+    destruct ol as [l|], or as [r|]; try reflexivity;
+    rewrite (col_pass_ext _ _ sm (merged_col_g_id sb sl sr _ l r)); reflexivity.
+Qed.
+
+Lemma row_merge_g_id fixed sb sl sr ob ol or :
+  row_merge_g (fun x => x) fixed sb sl sr ob ol or = row_merge fixed sb sl sr ob ol or.
+Proof. unfold row_merge_g, row_merge. rewrite try_merge_g_id. reflexivity. Qed.
+
+Lemma existsb_ext {A} (f g : A -> bool) l : (forall x, f x = g x) -> existsb f l = existsb g l.
+Proof. intro H. induction l as [|x l IH]; cbn [existsb]; [reflexivity|]. rewrite H, IH. reflexivity. Qed.
+
+Lemma table_merge_g_id fixed sb sl sr b l r :
+  table_merge_g (fun x => x) fixed sb sl sr b l r = table_merge fixed sb sl sr b l r.
+Proof.
+  unfold table_merge_g, table_merge.
+  assert (K : forall k, merge_key_g (fun x => x) fixed sb sl sr b l r k = merge_key fixed sb sl sr b l r k)
+    by (intro k; apply row_merge_g_id).
+  f_equal.
+  - apply existsb_ext. intro k. rewrite K. reflexivity.
+  - apply flat_map_ext. intro k. rewrite K. reflexivity.
+  - apply flat_map_ext. intro k. rewrite K. reflexivity.
+Qed.
+
+Lemma cell_merge_g_id b l r : cell_merge_g (fun x => x) b l r = cell_merge b l r.
+Proof.
+  unfold cell_merge_g, cell_merge. rewrite !ocell_veqb_id.
+  destruct (ocell_eqb_spec l r) as [E|NE]; [|reflexivity]. subst.
+  destruct r as [v|]; cbn [otie]; [rewrite tie_same|]; reflexivity.
+Qed.
+
+Lemma spec_row_g_id sb sl sr ob ol or : spec_row_g (fun x => x) sb sl sr ob ol or = spec_row sb sl sr ob ol or.
+Proof.
+  assert (M : forall s b x, modified_g (fun y => y) sb s b x = modified sb s b x).
+  { intros. unfold modified_g, modified. apply existsb_ext. intro c. rewrite ocell_veqb_id. reflexivity. }
+  assert (C : forall l r, cellwise_conflict_g (fun y => y) sb sl sr ob l r = cellwise_conflict sb sl sr ob l r).
+  { intros. unfold cellwise_conflict_g, cellwise_conflict. apply existsb_ext. intro c.
+    unfold clash_at_g, clash_at. rewrite cell_merge_g_id. reflexivity. }
+  assert (R : forall sm l r, cellwise_row_g (fun y => y) sb sl sr sm ob l r = cellwise_row sb sl sr sm ob l r).
+  { intros. unfold cellwise_row_g, cellwise_row. apply map_ext. intro c. rewrite cell_merge_g_id. reflexivity. }
+  unfold spec_row_g, spec_row. destruct ob, ol, or; rewrite ?M, ?C, ?R; reflexivity.
+Qed.
+
+Lemma orow_agree_v_id s1 o1 s2 o2 : orow_agree_v (fun x => x) s1 o1 s2 o2 = orow_agree s1 o1 s2 o2.
+Proof.
+  destruct o1, o2; reflexivity.
+Qed.
+
 (* ---------- oracle_on_model ---------- *)
 Lemma orow_eqb_refl a : orow_eqb a a = true.
 Proof. destruct a; cbn [orow_eqb]; [apply row_eqb_eq|]; reflexivity. Qed.
@@ -1157,9 +1243,9 @@ Qed.
 
 Lemma dir_ok_model sb sl sr b l r :
   (forall k, in_scope sb sl sr (get k b) (get k l) (get k r) = true) ->
-  dir_ok sb sl sr b l r (model_dir sb sl sr b l r) = true.
+  dir_ok (fun x => x) sb sl sr b l r (model_dir (fun x => x) sb sl sr b l r) = true.
 Proof.
-  intro H. unfold dir_ok, model_dir. rewrite merge_total. cbv iota. cbn [d_class d_sm d_rows d_conf].
+  intro H. unfold dir_ok, model_dir. rewrite table_merge_g_id. rewrite merge_total. cbv iota. cbn [d_class d_sm d_rows d_conf].
   rewrite !andb_true_iff. split; [split; [split|]|].
   - destruct (m_conf _); reflexivity.
   - apply same_cols_refl.
@@ -1167,16 +1253,17 @@ Proof.
   - apply forallb_forall. intros k _.
     destruct (in_scope_ok _ _ _ _ _ _ (H k)) as [Hs [Cv Dx]].
     rewrite table_merge_get, conflicts_exact. unfold merge_key.
-    rewrite (row_merge_refines_spec_exact _ _ _ _ _ _ Hs Cv Dx).
+    rewrite (row_merge_refines_spec_exact _ _ _ _ _ _ Hs Cv Dx). rewrite spec_row_g_id.
     destruct (spec_row sb sl sr (get k b) (get k l) (get k r)) as [v c]. cbn [fst snd].
+    rewrite !orow_agree_v_id.
     rewrite orow_agree_refl. destruct c; cbn [andb negb]; rewrite ?orow_eqb_refl, ?orow_agree_refl; reflexivity.
 Qed.
 
 Lemma swap_ok_model sb sl sr b l r :
   (forall k, in_scope sb sl sr (get k b) (get k l) (get k r) = true) ->
-  swap_ok sl sr (model_dir sb sl sr b l r) (model_dir sb sr sl b r l) = true.
+  swap_ok sl sr (model_dir (fun x => x) sb sl sr b l r) (model_dir (fun x => x) sb sr sl b r l) = true.
 Proof.
-  intro H. unfold swap_ok, model_dir. rewrite !merge_total. cbv iota. cbn [d_class d_sm d_rows d_conf].
+  intro H. unfold swap_ok, model_dir. rewrite !table_merge_g_id. rewrite !merge_total. cbv iota. cbn [d_class d_sm d_rows d_conf].
   apply orb_true_iff. right. apply andb_true_iff. split; [apply same_cols_merged_swap|].
   apply forallb_forall. intros k _.
   destruct (in_scope_ok _ _ _ _ _ _ (H k)) as [Hs [Cv Dx]].
@@ -1188,13 +1275,316 @@ Proof.
 Qed.
 
 (* oracle_on_model: on every input all of whose keys are inside the decidable scope, the executable
-   statement of the property accepts the model's own observation (both directions and the swap). *)
+   statement of the property accepts the model's own observation (both directions and the swap).
+   Stated for inputs without representation variants (i_cls = []); with variants the swap conjunct
+   is merge_swap_g and the value conjuncts are not yet lifted (see the round-3 section). *)
 Theorem oracle_on_model : forall i,
+  i_cls i = [] ->
   (forall k, in_scope (i_sb i) (i_sl i) (i_sr i) (get k (i_b i)) (get k (i_l i)) (get k (i_r i)) = true) ->
   oracle i (model_obs i) = true.
 Proof.
-  intros i H. unfold oracle, model_obs. cbn [o_lr o_rl].
+  intros i Ec H. unfold oracle, model_obs. cbn [o_lr o_rl]. rewrite Ec.
+  change (clsf []) with (fun x : N => x).
   rewrite dir_ok_model by exact H.
   rewrite dir_ok_model by (intro k; rewrite <- in_scope_sym; apply H).
   rewrite swap_ok_model by exact H. reflexivity.
 Qed.
+
+(* ====================================================================== *)
+(* Round 3: representation-aware model (value class vs stored bytes), for every class function *)
+(* ====================================================================== *)
+Section Representation.
+  Variable cls : N -> N.
+
+  Lemma cell_veqb_sym a b : cell_veqb cls a b = cell_veqb cls b a.
+  Proof. destruct a, b; cbn [cell_veqb]; try reflexivity. apply N.eqb_sym. Qed.
+
+  Lemma cell_veqb_trans a b c : cell_veqb cls a b = true -> cell_veqb cls c b = true -> cell_veqb cls a c = true.
+  Proof.
+    destruct a, b, c; cbn [cell_veqb]; try discriminate; try reflexivity.
+    rewrite !N.eqb_eq. congruence.
+  Qed.
+
+  Lemma tie_sym l r : tie l r = tie r l.
+  Proof.
+    unfold tie, bytes_gt. destruct l as [x|], r as [y|]; try reflexivity.
+    destruct (N.ltb_spec y x), (N.ltb_spec x y); try reflexivity; [exfalso; eapply N.lt_asymm; eassumption|].
+    f_equal. apply N.le_antisymm; assumption.
+  Qed.
+
+  (* ---------- merge_total, any class function ---------- *)
+  Lemma base_col_g_fixed_total sb sl sr b ol or c : base_col_g cls true sb sl sr b ol or c <> None.
+  Proof.
+    unfold base_col_g. destruct ol as [l|], or as [r|]; try discriminate.
+    - destruct (col sl l c), (col sr r c); discriminate.
+    - destruct (col sl l c); discriminate.
+    - destruct (col sr r c); discriminate.
+  Qed.
+
+  Lemma merged_col_g_total sb sl sr ob l r c :
+    mem c (merged_schema sb sl sr) = true -> merged_col_g cls sb sl sr ob l r c <> CErr.
+  Proof.
+    rewrite mem_merged. intro Hm. unfold merged_col_g.
+    destruct (ocol sb ob c) as [bv|] eqn:Eb.
+    - apply ocol_some_mem in Eb. rewrite Eb in Hm. cbn [implb negb andb orb] in Hm.
+      rewrite !andb_false_r, orb_false_r in Hm. apply andb_true_iff in Hm as [Hl Hr].
+      apply (col_some_ex sl l c) in Hl as [lv Hl]. apply (col_some_ex sr r c) in Hr as [rv Hr]. rewrite Hl, Hr.
+      destruct (cell_veqb cls lv rv); [discriminate|].
+      destruct (negb (cell_veqb cls lv bv) && negb (cell_veqb cls rv bv)); [discriminate|].
+      destruct (negb (cell_veqb cls lv bv)); discriminate.
+    - destruct (col sl l c) as [lv|] eqn:El, (col sr r c) as [rv|] eqn:Er; try discriminate.
+      + destruct (cell_veqb cls lv rv); discriminate.
+      + apply col_none in El. apply col_none in Er. rewrite El, Er in Hm. discriminate.
+  Qed.
+
+  Lemma try_merge_g_total sb sl sr ob ol or :
+    (ob = None -> ol <> None /\ or <> None) ->
+    try_merge_g cls true sb sl sr (merged_schema sb sl sr) ob ol or <> TErr.
+  Proof.
+    intro Hn. unfold try_merge_g.
+    assert (CP : forall l r, col_pass (merged_col_g cls sb sl sr ob l r) (merged_schema sb sl sr) <> TErr).
+    { intros. apply col_pass_total. intros c Hc. apply merged_col_g_total. apply mem_In. exact Hc. }
+    destruct ob as [b|].
+    - pose proof (base_pass_total _ sb (base_col_g_fixed_total sb sl sr b ol or)) as Hb.
+      destruct (base_pass _ sb) as [[|]|]; [discriminate| |congruence].
+      destruct ol, or; try discriminate; apply CP.
+    - destruct (Hn eq_refl) as [H1 H2]. destruct ol, or; try congruence; apply CP.
+  Qed.
+
+  Theorem row_merge_g_total : forall sb sl sr ob ol or, row_merge_g cls true sb sl sr ob ol or <> RErr.
+  Proof.
+    intros. unfold row_merge_g.
+    destruct (side_diff (side_flag sb sl sr) ob ol) eqn:Dl, (side_diff (side_flag sb sr sl) ob or) eqn:Dr; try discriminate.
+    destruct ol as [l|], or as [r|]; try discriminate.
+    - destruct (row_eqb l r); [discriminate|].
+      pose proof (try_merge_g_total sb sl sr ob (Some l) (Some r)) as T.
+      destruct (try_merge_g _ _ _ _ _ _ _ _ _); try discriminate. exfalso. apply T; [|reflexivity]. intros _. split; discriminate.
+    - pose proof (try_merge_g_total sb sl sr ob (Some l) None) as T.
+      destruct (try_merge_g _ _ _ _ _ _ _ _ _); try discriminate. exfalso. apply T; [|reflexivity].
+      intro E. subst ob. discriminate.
+    - pose proof (try_merge_g_total sb sl sr ob None (Some r)) as T.
+      destruct (try_merge_g _ _ _ _ _ _ _ _ _); try discriminate. exfalso. apply T; [|reflexivity].
+      intro E. subst ob. discriminate.
+  Qed.
+
+  (* merge_total for every class function: the merge with collation-equal, byte-different cells
+     (and added / dropped / moved columns) never reaches an internal-error branch *)
+  Theorem merge_total_g : forall sb sl sr b l r, m_err (table_merge_g cls true sb sl sr b l r) = false.
+  Proof.
+    intros. unfold table_merge_g. cbn [m_err].
+    destruct (existsb _ _) eqn:E; [|reflexivity].
+    apply existsb_exists in E as [k [_ Hk]]. unfold merge_key_g in Hk.
+    pose proof (row_merge_g_total sb sl sr (get k b) (get k l) (get k r)) as T.
+    destruct (row_merge_g _ _ _ _ _ _ _ _); [congruence|discriminate].
+  Qed.
+
+  (* ---------- table level ---------- *)
+  Lemma merge_key_g_absent fixed sb sl sr b l r k :
+    ~ In k (all_keys b l r) -> merge_key_g cls fixed sb sl sr b l r k = ROk None false.
+  Proof.
+    unfold all_keys. rewrite nodup_In, !in_app_iff. intro H. unfold merge_key_g.
+    assert (Hb : get k b = None) by (apply get_none_keys; tauto).
+    assert (Hl : get k l = None) by (apply get_none_keys; tauto).
+    assert (Hr : get k r = None) by (apply get_none_keys; tauto).
+    rewrite Hb, Hl, Hr. reflexivity.
+  Qed.
+
+  Theorem table_merge_get_g : forall fixed sb sl sr b l r k,
+    get k (m_rows (table_merge_g cls fixed sb sl sr b l r))
+    = match merge_key_g cls fixed sb sl sr b l r k with ROk v _ => v | RErr => None end.
+  Proof.
+    intros. unfold table_merge_g. cbn [m_rows].
+    rewrite (flat_map_ext _ (fun k' => match (match merge_key_g cls fixed sb sl sr b l r k' with ROk v _ => v | RErr => None end) with
+                                       | Some v => [(k', v)] | None => [] end)).
+    2:{ intro a. destruct (merge_key_g cls fixed sb sl sr b l r a) as [|[v|] c]; reflexivity. }
+    rewrite get_flat_map. destruct (existsb (N.eqb k) (all_keys b l r)) eqn:E; [reflexivity|].
+    rewrite merge_key_g_absent; [reflexivity|]. intro H. apply existsb_eqb_In in H. congruence.
+  Qed.
+
+  Theorem conflicts_exact_g : forall fixed sb sl sr b l r k,
+    getc k (m_conf (table_merge_g cls fixed sb sl sr b l r))
+    = match merge_key_g cls fixed sb sl sr b l r k with
+      | ROk v true => Some (get k b, v, get k r)
+      | _ => None
+      end.
+  Proof.
+    intros. unfold table_merge_g. cbn [m_conf].
+    rewrite (flat_map_ext _ (fun k' => match (match merge_key_g cls fixed sb sl sr b l r k' with
+                                              | ROk v true => Some (get k' b, v, get k' r) | _ => None end) with
+                                       | Some e => [(k', e)] | None => [] end)).
+    2:{ intro a. destruct (merge_key_g cls fixed sb sl sr b l r a) as [|v [|]]; reflexivity. }
+    rewrite getc_flat_map. destruct (existsb (N.eqb k) (all_keys b l r)) eqn:E; [reflexivity|].
+    rewrite merge_key_g_absent; [reflexivity|]. intro H. apply existsb_eqb_In in H. congruence.
+  Qed.
+
+  (* ---------- symmetry of TryMerge, representations included ---------- *)
+  Lemma merged_col_g_sym sb sl sr ob l r c :
+    mem c (merged_schema sb sl sr) = true ->
+    merged_col_g cls sb sl sr ob l r c = merged_col_g cls sb sr sl ob r l c.
+  Proof.
+    rewrite mem_merged. intro Hm. unfold merged_col_g.
+    destruct (ocol sb ob c) as [bv|] eqn:Eb.
+    - apply ocol_some_mem in Eb. rewrite Eb in Hm. cbn [implb negb andb orb] in Hm.
+      rewrite !andb_false_r, orb_false_r in Hm. apply andb_true_iff in Hm as [Hl Hr].
+      apply (col_some_ex sl l c) in Hl as [lv Hl]. apply (col_some_ex sr r c) in Hr as [rv Hr]. rewrite Hl, Hr.
+      rewrite (cell_veqb_sym rv lv), (tie_sym rv lv).
+      destruct (cell_veqb cls lv rv) eqn:E; [reflexivity|].
+      destruct (cell_veqb cls lv bv) eqn:A, (cell_veqb cls rv bv) eqn:B; cbn [negb andb]; try reflexivity.
+      rewrite (cell_veqb_trans lv bv rv A B) in E. discriminate.
+    - destruct (col sl l c) as [lv|], (col sr r c) as [rv|]; try reflexivity.
+      rewrite (cell_veqb_sym rv lv), (tie_sym rv lv). reflexivity.
+  Qed.
+
+  Lemma base_col_g_sym sb sl sr b ol or c :
+    base_col_g cls true sb sl sr b ol or c = base_col_g cls true sb sr sl b or ol c.
+  Proof.
+    unfold base_col_g. destruct ol as [l|], or as [r|]; try reflexivity.
+    destruct (col sl l c), (col sr r c); reflexivity.
+  Qed.
+
+  (* two TryMerge outcomes that agree up to the column order of the two merged schemas *)
+  Definition tm_swap (s1 s2 : schema) (a b : tm) : Prop :=
+    match a, b with
+    | TConflict, TConflict => True
+    | TDelete, TDelete => True
+    | TMerged m1, TMerged m2 => same_data s1 (Some m1) s2 (Some m2)
+    | _, _ => False
+    end.
+
+  Lemma col_pass_swap sb sl sr ob l r :
+    tm_swap (merged_schema sb sl sr) (merged_schema sb sr sl)
+      (col_pass (merged_col_g cls sb sl sr ob l r) (merged_schema sb sl sr))
+      (col_pass (merged_col_g cls sb sr sl ob r l) (merged_schema sb sr sl)).
+  Proof.
+    rewrite !col_pass_spec by (intros c Hc; apply merged_col_g_total; apply mem_In; exact Hc).
+    assert (E : existsb (fun c => is_conf (merged_col_g cls sb sl sr ob l r c)) (merged_schema sb sl sr)
+              = existsb (fun c => is_conf (merged_col_g cls sb sr sl ob r l c)) (merged_schema sb sr sl)).
+    { apply eq_true_iff_eq. rewrite !existsb_exists. split; intros [c [Hin Hc]]; exists c; apply mem_In in Hin.
+      - split; [apply mem_In; rewrite <- mem_merged_swap; exact Hin|]. rewrite <- merged_col_g_sym by exact Hin. exact Hc.
+      - split; [apply mem_In; rewrite mem_merged_swap; exact Hin|]. rewrite merged_col_g_sym by (rewrite mem_merged_swap; exact Hin). exact Hc. }
+    rewrite E. destruct (existsb _ (merged_schema sb sr sl)); cbn [tm_swap]; [exact I|].
+    split; [split; discriminate|]. intro c. cbn [ocol].
+    rewrite (col_map (fun c => val_of (merged_col_g cls sb sl sr ob l r c))).
+    rewrite (col_map (fun c => val_of (merged_col_g cls sb sr sl ob r l c))).
+    rewrite mem_merged_swap. destruct (mem c (merged_schema sb sr sl)) eqn:M; [|reflexivity].
+    rewrite merged_col_g_sym by (rewrite mem_merged_swap; exact M). reflexivity.
+  Qed.
+
+  Lemma try_merge_g_swap sb sl sr ob ol or :
+    (ob = None -> ol <> None /\ or <> None) -> (ol <> None \/ or <> None) ->
+    tm_swap (merged_schema sb sl sr) (merged_schema sb sr sl)
+      (try_merge_g cls true sb sl sr (merged_schema sb sl sr) ob ol or)
+      (try_merge_g cls true sb sr sl (merged_schema sb sr sl) ob or ol).
+  Proof.
+    intros Hn Hs. unfold try_merge_g.
+    destruct ob as [b|].
+    - rewrite (base_pass_ext _ (base_col_g cls true sb sr sl b or ol) sb) by (intro c; apply base_col_g_sym).
+      pose proof (base_pass_total _ sb (base_col_g_fixed_total sb sr sl b or ol)) as Hb.
+      destruct (base_pass _ sb) as [[|]|]; [exact I| |congruence].
+      destruct ol as [l|], or as [r|]; cbn [tm_swap]; try exact I; try apply col_pass_swap.
+    - destruct (Hn eq_refl) as [H1 H2]. destruct ol as [l|], or as [r|]; try congruence; apply col_pass_swap.
+  Qed.
+
+  Lemma same_data_omap_remap sb sl sr s o :
+    same_data (merged_schema sb sl sr) (option_map (remap (merged_schema sb sl sr) s) o)
+              (merged_schema sb sr sl) (option_map (remap (merged_schema sb sr sl) s) o).
+  Proof. destruct o; cbn [option_map]; [apply same_data_remap|apply same_data_none]. Qed.
+
+  (* the outcome of the two directions for one key *)
+  Definition res_swap (sb sl sr : schema) (ol or : option row) (a b : res) : Prop :=
+    match a, b with
+    | ROk v1 c1, ROk v2 c2 =>
+        c1 = c2
+        /\ (c1 = false -> same_data (merged_schema sb sl sr) v1 (merged_schema sb sr sl) v2)
+        /\ (c1 = true -> v1 = option_map (remap (merged_schema sb sl sr) sl) ol
+                         /\ v2 = option_map (remap (merged_schema sb sr sl) sr) or)
+    | _, _ => False
+    end.
+
+  Theorem row_merge_g_swap : forall sb sl sr ob ol or,
+    schemas_ok sb sl sr -> conv_ok sl sr ol or ->
+    res_swap sb sl sr ol or (row_merge_g cls true sb sl sr ob ol or) (row_merge_g cls true sb sr sl ob or ol).
+  Proof.
+    intros sb sl sr ob ol or [Hl Hr] Cv. unfold row_merge_g.
+    destruct (side_diff (side_flag sb sl sr) ob ol) eqn:Dl;
+      destruct (side_diff (side_flag sb sr sl) ob or) eqn:Dr.
+    - (* both sides have a diff *)
+      destruct ol as [l|], or as [r|].
+      + assert (ER : row_eqb r l = row_eqb l r).
+        { apply eq_true_iff_eq. rewrite !row_eqb_eq. split; congruence. }
+        rewrite ER. destruct (row_eqb l r) eqn:E.
+        * apply row_eqb_eq in E. subst r. assert (sl = sr) by (apply (Cv l); reflexivity). subst sr.
+          cbn [res_swap]. split; [reflexivity|]. split; [|discriminate]. intros _.
+          split; [tauto|reflexivity].
+        * pose proof (try_merge_g_swap sb sl sr ob (Some l) (Some r)) as T.
+          destruct (try_merge_g cls true sb sl sr _ ob (Some l) (Some r)), (try_merge_g cls true sb sr sl _ ob (Some r) (Some l));
+            cbn [tm_swap res_swap] in *;
+            try (exfalso; apply T; [intros _; split; discriminate|left; discriminate]).
+          -- split; [reflexivity|]. split; [discriminate|]. intros _. split; reflexivity.
+          -- split; [reflexivity|]. split; [|discriminate]. intros _. apply same_data_none.
+          -- split; [reflexivity|]. split; [|discriminate]. intros _. apply T; [intros _; split; discriminate|left; discriminate].
+      + destruct ob as [b|]; [|discriminate].
+        pose proof (try_merge_g_swap sb sl sr (Some b) (Some l) None) as T.
+        destruct (try_merge_g cls true sb sl sr _ (Some b) (Some l) None), (try_merge_g cls true sb sr sl _ (Some b) None (Some l));
+          cbn [tm_swap res_swap] in *;
+          try (exfalso; apply T; [discriminate|left; discriminate]).
+        * split; [reflexivity|]. split; [discriminate|]. intros _. split; reflexivity.
+        * split; [reflexivity|]. split; [|discriminate]. intros _. apply same_data_none.
+        * split; [reflexivity|]. split; [|discriminate]. intros _. apply T; [discriminate|left; discriminate].
+      + destruct ob as [b|]; [|discriminate].
+        pose proof (try_merge_g_swap sb sl sr (Some b) None (Some r)) as T.
+        destruct (try_merge_g cls true sb sl sr _ (Some b) None (Some r)), (try_merge_g cls true sb sr sl _ (Some b) (Some r) None);
+          cbn [tm_swap res_swap] in *;
+          try (exfalso; apply T; [discriminate|right; discriminate]).
+        * split; [reflexivity|]. split; [discriminate|]. intros _. split; reflexivity.
+        * split; [reflexivity|]. split; [|discriminate]. intros _. apply same_data_none.
+        * split; [reflexivity|]. split; [|discriminate]. intros _. apply T; [discriminate|right; discriminate].
+      + cbn [res_swap]. split; [reflexivity|]. split; [|discriminate]. intros _. apply same_data_none.
+    - (* only the left side has a diff: both directions keep the left row *)
+      cbn [res_swap]. split; [reflexivity|]. split; [|discriminate]. intros _. apply same_data_omap_remap.
+    - cbn [res_swap]. split; [reflexivity|]. split; [|discriminate]. intros _. apply same_data_omap_remap.
+    - (* no diff on either side: both rows are the ancestor's, in the ancestor's schema *)
+      cbn [res_swap]. split; [reflexivity|]. split; [|discriminate]. intros _.
+      destruct (side_diff_false _ sb sl ob ol Hl Dl) as [[Eb Eo]|[b [Eb [Eo Es]]]]; subst.
+      + destruct (side_diff_false _ sb sr None or Hr Dr) as [[_ Eo]|[b [Eb _]]]; [subst; apply same_data_none|discriminate].
+      + destruct (side_diff_false _ sb sr (Some b) or Hr Dr) as [[Eb _]|[b' [Eb [Eo Es]]]]; [discriminate|].
+        inversion Eb; subst b' or sr. cbn [option_map]. split; [tauto|reflexivity].
+  Qed.
+
+  (* merge_swap with representations: for every class function, every schema triple with schemas_ok,
+     all tables and every key with conv_ok: the two directions record a conflict for the same keys
+     with mirrored entries, and on every other key the two merged tables hold the same stored cells
+     (same bytes, not only the same values), column name by column name.  (delete_exact is not needed:
+     this is a symmetry of the implementation itself, not of the declarative merge.) *)
+  Theorem merge_swap_g : forall sb sl sr b l r k,
+    schemas_ok sb sl sr -> conv_ok sl sr (get k l) (get k r) ->
+    let M1 := table_merge_g cls true sb sl sr b l r in
+    let M2 := table_merge_g cls true sb sr sl b r l in
+    match getc k (m_conf M1), getc k (m_conf M2) with
+    | None, None =>
+        same_data (merged_schema sb sl sr) (get k (m_rows M1)) (merged_schema sb sr sl) (get k (m_rows M2))
+    | Some (b1, o1, t1), Some (b2, o2, t2) =>
+        b1 = b2 /\ t1 = get k r /\ t2 = get k l
+        /\ o1 = option_map (remap (merged_schema sb sl sr) sl) (get k l)
+        /\ o2 = option_map (remap (merged_schema sb sr sl) sr) (get k r)
+    | _, _ => False
+    end.
+  Proof.
+    intros sb sl sr b l r k Hs Cv M1 M2. subst M1 M2.
+    rewrite !conflicts_exact_g, !table_merge_get_g. unfold merge_key_g.
+    pose proof (row_merge_g_swap sb sl sr (get k b) (get k l) (get k r) Hs Cv) as S.
+    destruct (row_merge_g cls true sb sl sr (get k b) (get k l) (get k r)) as [|v1 c1];
+      destruct (row_merge_g cls true sb sr sl (get k b) (get k r) (get k l)) as [|v2 c2]; cbn [res_swap] in S; try contradiction.
+    destruct S as [Ec [Sd So]]. subst c2. destruct c1.
+    - destruct (So eq_refl) as [E1 E2]. subst. auto.
+    - apply Sd. reflexivity.
+  Qed.
+End Representation.
+
+(* the seeded change "return leftVal on a convergent insert" breaks exactly this: with the tie-break
+   the two directions agree on a collation-equal, byte-different convergent insert *)
+Example tie_break_makes_swap_agree :
+  let cls := fun x => if x <? 10 then 0 else x in      (* representations 1 ('AB') and 2 ('ab') of class 0 *)
+  m_rows (table_merge_g cls true [0] [0] [0] [] [(3, [Some 1])] [(3, [Some 2])]) = [(3, [Some 2])]
+  /\ m_rows (table_merge_g cls true [0] [0] [0] [] [(3, [Some 2])] [(3, [Some 1])]) = [(3, [Some 2])].
+Proof. split; vm_compute; reflexivity. Qed.
